@@ -1,1 +1,143 @@
 //! Verification hooks: misc (cargo feature `mmtk_verif`; add-only wrappers).
+
+/// C35 — native mark-sweep size classes and block geometry.
+pub mod msbins {
+    use crate::policy::marksweepspace::native_ms::Block;
+    use crate::util::linear_scan::Region;
+    use crate::util::Address;
+
+    /// Geometry of the native mark-sweep block that contains `addr`, as the allocator left it:
+    /// `(block start, cell size recorded for the block, cells on the block's free list in list order)`.
+    /// The free list is walked through the `next` word stored in every free cell, exactly as
+    /// `FreeListAllocator::block_alloc` does; at most `limit` cells are followed.
+    pub fn block_geometry(addr: Address, limit: usize) -> (usize, usize, Vec<usize>) {
+        let block = Block::from_unaligned_address(addr);
+        let mut cells = vec![];
+        let mut cell = block.load_free_list();
+        while !cell.is_zero() && cells.len() < limit {
+            cells.push(cell.as_usize());
+            cell = unsafe { cell.load::<Address>() };
+        }
+        (block.start().as_usize(), block.load_block_cell_size(), cells)
+    }
+
+    /// `MI_INTPTR_SIZE` as the size-class code sees it (bytes in an address).
+    pub fn intptr_size() -> usize {
+        1 << (crate::util::constants::LOG_BYTES_IN_ADDRESS as usize)
+    }
+}
+
+/// C38 — heap-size trigger policies (`util::heap::gc_trigger`).
+pub mod membal {
+    pub use crate::util::heap::gc_trigger::verif_hooks::*;
+    pub use crate::util::heap::gc_trigger::{FixedHeapSizeTrigger, MemBalancerTrigger};
+    use crate::util::heap::GCTriggerPolicy;
+    use crate::vm::VMBinding;
+    use crate::MMTK;
+
+    /// The events of `GCTriggerPolicy`, forwarded to the real implementation.
+    pub fn on_pending_allocation<VM: VMBinding>(t: &dyn GCTriggerPolicy<VM>, pages: usize) {
+        t.on_pending_allocation(pages)
+    }
+    /// `on_gc_start`, `on_gc_release`, `on_gc_end` (`which` = 0, 1, 2) with a real MMTk instance.
+    pub fn on_gc_event<VM: VMBinding>(t: &dyn GCTriggerPolicy<VM>, mmtk: &'static MMTK<VM>, which: u8) {
+        match which {
+            0 => t.on_gc_start(mmtk),
+            1 => t.on_gc_release(mmtk),
+            _ => t.on_gc_end(mmtk),
+        }
+    }
+    /// `(get_current_heap_size_in_pages, get_max_heap_size_in_pages, can_heap_size_grow)`.
+    pub fn observe<VM: VMBinding>(t: &dyn GCTriggerPolicy<VM>) -> (usize, usize, bool) {
+        (
+            t.get_current_heap_size_in_pages(),
+            t.get_max_heap_size_in_pages(),
+            t.can_heap_size_grow(),
+        )
+    }
+    /// What `on_gc_end` of a non-generational plan passes to `compute_new_heap_limit`:
+    /// `(plan.get_reserved_pages(), plan.get_collection_reserved_pages())`.
+    pub fn plan_pages<VM: VMBinding>(mmtk: &'static MMTK<VM>) -> (usize, usize) {
+        (
+            mmtk.get_plan().get_reserved_pages(),
+            mmtk.get_plan().get_collection_reserved_pages(),
+        )
+    }
+}
+
+/// C37 — Compressor forwarding metadata (`policy::compressor::forwarding`).
+pub mod xducer {
+    use crate::policy::compressor::forwarding::{
+        Block, CompressorRegion, ForwardingMetadata, MARK_SPEC, OFFSET_VECTOR_SPEC,
+    };
+    use crate::util::linear_scan::Region;
+    use crate::util::Address;
+    use crate::vm::VMBinding;
+    use atomic::Ordering;
+
+    /// Bytes in a Compressor region / in an offset-vector block.
+    pub const REGION_BYTES: usize = CompressorRegion::BYTES;
+    /// Bytes in an offset-vector block.
+    pub const BLOCK_BYTES: usize = Block::BYTES;
+
+    /// A `ForwardingMetadata` of its own (the mark bitmap and the offset vector are global side
+    /// metadata; the struct only carries the `calculated` flag).
+    pub struct Fwd<VM: VMBinding>(ForwardingMetadata<VM>);
+
+    impl<VM: VMBinding> Fwd<VM> {
+        /// `ForwardingMetadata::new()`.
+        pub fn new() -> Self {
+            Fwd(ForwardingMetadata::new())
+        }
+        /// `calculate_offset_vector(region, cursor)`.
+        pub fn calculate_offset_vector(&self, region_start: Address, cursor: Address) {
+            self.0
+                .calculate_offset_vector(CompressorRegion::from_aligned_address(region_start), cursor)
+        }
+        /// `forward(address)`.
+        pub fn forward(&self, address: Address) -> Address {
+            self.0.forward(address)
+        }
+        /// `release()`.
+        pub fn release(&self) {
+            self.0.release()
+        }
+    }
+
+    impl<VM: VMBinding> Default for Fwd<VM> {
+        fn default() -> Self {
+            Self::new()
+        }
+    }
+
+    /// Map the Compressor's two local side-metadata tables for the data range `[start, start + bytes)`
+    /// (what `CompressorSpace` gets from its `SideMetadataContext` when it acquires pages). Needed
+    /// when no `CompressorSpace` exists in the running plan.
+    pub fn map_metadata(start: Address, bytes: usize) {
+        use crate::util::metadata::side_metadata::SideMetadataContext;
+        let ctx = SideMetadataContext {
+            global: vec![],
+            local: vec![MARK_SPEC, OFFSET_VECTOR_SPEC],
+        };
+        ctx.try_map_metadata_space(start, bytes, "verif-xducer")
+            .unwrap_or_else(|e| panic!("cannot map compressor metadata: {e:?}"));
+    }
+
+    /// Clear the mark bits and the offset vector of `[start, start + bytes)` (as `CompressorSpace::prepare`
+    /// clears the mark bits).
+    pub fn clear(start: Address, bytes: usize) {
+        MARK_SPEC.bzero_metadata(start, bytes);
+        OFFSET_VECTOR_SPEC.bzero_metadata(start, bytes);
+    }
+
+    /// Set the mark bit of the word at `addr` (what `test_and_mark` / `mark_last_word_of_object` do
+    /// for the first / last word of an object).
+    pub fn set_mark(addr: Address) {
+        MARK_SPEC.fetch_or_atomic::<u8>(addr, 1, Ordering::SeqCst);
+    }
+
+    /// The offset-vector entry of the block containing `addr`.
+    pub fn offset_entry(addr: Address) -> usize {
+        OFFSET_VECTOR_SPEC.load_atomic::<usize>(Block::from_unaligned_address(addr).start(), Ordering::SeqCst)
+    }
+}
